@@ -38,7 +38,26 @@ def gen_label(rng, k):
     return stratum, f"c{k}|" + rng.choice(LABELS[stratum])
 
 
-def gen_program(rng, tier):
+def directed_reuse_program(rng):
+    """The history behind the known finding id-reused-while-peer-closing, spelled out: the creator closes a channel, its own reset
+    is answered at once, the peer's reset (or the answer to it) is held up in the network; the creator opens the next channel -
+    automatic id: the freed one - and sends on it while the peer's old channel on that id is still closing."""
+    creator = rng.choice("AB")
+    common = dict(creator=creator, protocol="", ordered=True, maxRetransmits=None, maxPacketLifeTime=None, negotiated=None)
+    ops = [("create", -1.0, 0, dict(common, label="c0|first")),
+           ("send", 0.8, 0, creator, 100, False), ("send", 0.82, 0, creator, 100, True),
+           ("close", 1.0, 0, creator),
+           ("create", round(1.0 + rng.choice([0.08, 0.15, 0.3]), 4), 1, dict(common, label="c1|second"))]
+    for j in range(4):
+        ops.append(("send", round(1.6 + 0.01 * j, 4), 1, creator, rng.choice([20, 300]), rng.random() < 0.5))
+    ops.sort(key=lambda o: o[1])
+    return dict(heal=8.0, faults="reset-delayed", ops=ops, end="none", start=dict(A=0.0, B=0.0),
+                feats=["directed-id-reuse"], nch=2, early=None)
+
+
+def gen_program(rng, tier, force_shape=None):
+    if force_shape == "directed-id-reuse" or (force_shape is None and rng.random() < 0.02):
+        return directed_reuse_program(rng)
     heal = rng.choice([3.0, 6.0, 12.0])
     faults = rng.choice(["none", "none", "light", "heavy", "handshake", "none", "light", "reset-lossy"])
     if faults == "reset-lossy":
@@ -100,6 +119,24 @@ def gen_program(rng, tier):
     for i in range(n_msgs):
         ops.append(("send", round(rng.uniform(0.0, heal + 2.0), 4), rng.randrange(nch), rng.choice("AB"),
                     pick_size(rng), rng.random() < 0.5))
+    if rng.random() < 0.15 and faults != "handshake":
+        # directed shape: a channel carries a few messages, the side that did NOT create it closes it, the creator then opens a
+        # new channel (automatic id: the freed one) and at once sends a burst on it while the network still reorders
+        creator = rng.choice("AB")
+        other = "B" if creator == "A" else "A"
+        k0, k1 = nch, nch + 1
+        t0 = round(rng.uniform(0.6, 1.2), 4)
+        common = dict(creator=creator, protocol="", ordered=True, maxRetransmits=None, maxPacketLifeTime=None, negotiated=None)
+        ops.append(("create", -1.0, k0, dict(common, label="reuse-0")))
+        for j in range(rng.randint(4, 9)):
+            ops.append(("send", round(t0 + 0.01 * j, 4), k0, creator, pick_size(rng), rng.random() < 0.5))
+        tc = round(t0 + rng.uniform(0.3, 0.8), 4)
+        ops.append(("close", tc, k0, other))
+        t1 = round(tc + rng.choice([0.3, 0.6, 1.0, 2.0]), 4)
+        ops.append(("create", t1, k1, dict(common, label="reuse-1")))
+        for j in range(rng.randint(3, 6)):
+            ops.append(("send", round(t1 + 0.4 + 0.002 * j, 4), k1, creator, rng.choice([20, 200, 1100]), rng.random() < 0.5))
+        feats.add("id-reuse-after-remote-close")
     end = rng.choice(["stop-A", "stop-B", "none", "none", "stop-A"])
     start = dict(A=rng.choice([0.0, 0.0, 0.2]), B=rng.choice([0.0, 0.0, 0.1, 1.2]))
     # association ends early: stop() during set-up / right after, or a peer that never starts (T1 exhaustion)
@@ -123,6 +160,8 @@ def fault_spec(rng, faults):
         return {"latency": 0.02, "profile": "light", "loss": 0.03, "dup": 0.05, "jitter": 0.05}
     if faults == "reset-lossy":
         return {"latency": 0.02, "profile": "reset-lossy", "loss": 0.02, "kind_loss": {"reconfig": 0.85}}
+    if faults == "reset-delayed":
+        return {"latency": 0.02, "profile": "reset-delayed", "loss": 0.0, "kind_extra": {"reconfig": (0.0, 3.0)}}
     if faults == "handshake":
         s = {"latency": 0.02, "profile": "handshake", "loss": 0.05,
              "kind_extra": {k: (0.7, 3.5) for k in ("init", "cookieecho", "initack", "cookieack")}}
@@ -136,8 +175,8 @@ def blocked_by_lost_reset(rig, ep):
     return bool(streams) and bool(set(streams) & rig.reconfig_lost_streams)
 
 
-def run_case(index, rng, tier):
-    prog = gen_program(rng, tier)
+def run_case(index, rng, tier, force_shape=None):
+    prog = gen_program(rng, tier, force_shape)
     relay = (index % 12 == 11)
     rig = SctpRig(rng, heal=prog["heal"], relay=relay, spec_ab=fault_spec(rng, prog["faults"]),
                   spec_ba=fault_spec(rng, prog["faults"]))
@@ -362,11 +401,24 @@ def run_case(index, rng, tier):
                                          "events_tail": [list(map(str, e)) for e in list(rig.events)[-30:]]}})
         inconclusive = "inconclusive-slow" if outcome == "slow" else None
         return dict(hash=fin["fingerprint"] + str(index), nontrivial=bool(prog["feats"]), counters=c, violations=viol,
+                    rig_violations=[dict(v, prog={k: prog[k] for k in ("heal", "faults", "end", "start", "feats")}, ops=prog["ops"][:40],
+                                         id_reused_while_peer_closing=_on_reused_id(rig, v))
+                                    for v in rig.violations],
                     inconclusive=inconclusive, evals=c.get("lifecycle_samples", 0),
                     sample={"prog": {k: prog[k] for k in ("heal", "faults", "end", "start", "feats", "nch")},
                             "ops": [list(map(repr, o)) for o in prog["ops"][:8]], "drain": outcome})
     finally:
         rig.close()
+
+
+def _on_reused_id(rig, v):
+    """Does this violation concern a channel whose stream id saw a DCEP OPEN arrive while the previous channel on that id was still
+    closing at the receiver (the mechanism of the known finding id-reused-while-peer-closing)?"""
+    ch = rig.chans.get(v.get("chan"))
+    if ch is None:
+        return False
+    ids = {getattr(o, "id", None) for o in ch.obj.values()}
+    return any((ep, i) in rig.open_on_closing for ep in "AB" for i in ids)
 
 
 def plan(tier):
